@@ -145,9 +145,38 @@ def build_harness(log):
 
 
 def gen_trace(pid, seed, tier, path, full=False):
+    """Runs the generator against the real crate. Returns True when it ran to completion. An operation of the
+    crate that does not return (the harness's watchdog ends the process and leaves the case in the hang file)
+    is appended to the trace as `<op> => fault hang @gone`; a generator that does not finish within the overall
+    limit is killed."""
+    hang = path + ".hang"
+    if os.path.exists(hang):
+        os.remove(hang)
+    env = dict(os.environ, HOOT_HANG_FILE=hang)
+    if full:
+        env["HOOT_FULL"] = "1"
+    limit = 3600 if tier == "thorough" else 900
+    ok = True
     with open(path, "wb") as f:
-        r = run([HBIN, "gen", pid, str(seed), tier], stdout=f, env={"HOOT_FULL": "1"} if full else None)
-    return r.returncode == 0
+        try:
+            r = subprocess.run([HBIN, "gen", pid, str(seed), tier], stdout=f, stderr=subprocess.DEVNULL, env=env, timeout=limit)
+            ok = r.returncode == 0
+        except subprocess.TimeoutExpired:
+            ok = False
+    if not ok:
+        # drop a partial last line, then add the case during which an operation hung (if that is what happened)
+        data = open(path, "rb").read()
+        if data and not data.endswith(b"\n"):
+            data = data[:data.rfind(b"\n") + 1]
+        if os.path.exists(hang):
+            hc = open(hang, "rb").read()
+            first = hc.split(b"\n", 1)[0] + b"\n"          # "case <id>"
+            cut = data.rfind(first)
+            if cut >= 0:
+                data = data[:cut]                              # the case may be partly in the trace already
+            data += hc
+        open(path, "wb").write(data)
+    return ok
 
 
 def exec_ops(lines, path, full=False):
@@ -357,6 +386,14 @@ def main():
                           [f"property {pid}: oracle false on the implementation's trace", why,
                            f"replay: python3 check.py replay {REPL}/{pid}-{len(violations) + 1}.txt"])
         violations.append((rp, ""))
+
+    # an operation of the crate that did not return: a failing input in its own right
+    for cid, lines in byid.items():
+        if any(l.endswith("=> fault hang @gone") for l in lines[-2:]) and len(violations) < 5:
+            rp = write_replay(pid, len(violations) + 1, lines,
+                              [f"property {pid}: an operation of the crate did not return (watchdog, HOOT_OP_TIMEOUT s) on this input",
+                               f"replay: python3 check.py replay {REPL}/{pid}-{len(violations) + 1}.txt"])
+            violations.append((rp, ""))
 
     # 5. something no longer checks but no oracle failure yet: directed search
     broken = []
